@@ -33,6 +33,9 @@ CHECKS = {
  "C16": dict(cat="model_checking", tech="TLA+ per-draw schema automaton; trace validation of get_all() output of real chains against the declared schema",
    text="The declared schema (names, types, dims, event dims, dim sizes) is the trace header; every draw of 240 (quick) / 2400 (thorough) chains over all six presets x store_* flags x mass-matrix options x dims x divergence / update histories is one line; the spec requires exact names and order, declared type and length for present values, all-or-none presence of non-event fields, event fields only on event draws, identifying fields on every event draw, divergence fields iff diverging, update fields iff the transformation id (from the adaptation hook) changed, counters +1, constant chain id.",
    note="'changed' comes from the adaptation hook rather than from the statistic itself; name distinctness is not part of this property", ref="5/C16"),
+ "C18": dict(cat="model_checking", tech="TLA+ step-loop spec (TLC over all ok/diverge patterns) + trace validation of MCLMC hook events with harness-side numeric predicates",
+   text="Mclmc.tla models the halving-stack step loop: factor = 2^-depth, exact conservation of integration time, step count = num_base iff no retry, give-up at the halving limit, no retry without dynamic step size; checked for all outcome patterns at num_base 1..4, 0..3 halvings. Real chains of the three MCLMC presets (trajectory kinds, dynamic on/off, subsample frequencies, jitter, forced divergences) must be behaviours of MclmcTrace, which also checks the Euclidean->Microcanonical switch (once, at the configured draw, with resampled momentum), unchanged position + fresh unit momentum on divergent draws, start-from-previous-draw, and Progress/stat step counts.",
+   note="unit norm, ESH closed form (dim <= 8) and num_base formula are harness-side predicates at 1e-9 / exact", ref="5/C18"),
 }
 NOT_APPLICABLE = {
  "C19": "encode/decode fidelity of a plain data structure plus equality of two deterministic runs: no state machine, schedule, history or fault to specify in TLA+ (DESIGN.md 5/C19)",
